@@ -47,7 +47,10 @@ def run(res, replay=None):
             garb["anchor"][a] = rng.choice([0.0, -1e5, 3.5, 1e300])
             garb["width"][a] = rng.choice([1.0, 1e-7, 42.0, 1e300])
         slab = None
-        if dim == 2:
+        # the 3D slab has unit thickness: compare only when the 2D box is of comparable scale (aspect of the
+        # 3D box <= 1e3), otherwise the 3D input itself is ill-conditioned (absolute filter epsilon, grid resolution)
+        a_, w_ = T.norm_box(dim, inp["anchor"], inp["width"])
+        if dim == 2 and all(1e-3 <= w_[k] <= 1e3 for k in range(2)) and all(abs(a_[k]) <= 1e4 for k in range(2)):
             a, w = T.norm_box(dim, inp["anchor"], inp["width"])
             slab = {"family": inp["family"], "dim": 3, "periodic": inp["periodic"], "anchor": a, "width": w,
                     "gens": [[g[0], g[1], 0.0] for g in inp["gens"]], "mask": None}
@@ -57,12 +60,12 @@ def run(res, replay=None):
     with open(cf, "w") as f:
         for inp, garb, slab in cases:
             idx = [len(lines)]
-            lines.append(T.case_line(inp, 1 | 2))
+            lines.append(T.case_line(inp, 1 | 2 | 8))
             idx.append(len(lines))
-            lines.append(T.case_line(garb, 1 | 2))
+            lines.append(T.case_line(garb, 1 | 2 | 8))
             if slab:
                 idx.append(len(lines))
-                lines.append(T.case_line(slab, 1 | 2))
+                lines.append(T.case_line(slab, 1 | 2 | 8))
             inp["_idx"] = idx
         f.write("\n".join(lines) + "\n")
     rc, impl, _ = C.run_impl(C.build_harness("debug"), cf, os.path.join(wd, "c08.out"))
@@ -75,7 +78,7 @@ def run(res, replay=None):
         bad = next((x for x in outs if x is None or "panic" in x), "ok")
         if bad != "ok":
             msg = str((bad or {}).get("panic"))
-            res.violation("panic:" + ("no-suitable-vertex" if "No suitable" in msg else "other"), f"construction panicked: {msg}", dict(ctx, garbage=T.inp_json(garb)))
+            res.violation("panic:" + geo.panic_signature(bad, inp), f"construction panicked: {msg}", dict(ctx, garbage=T.inp_json(garb)))
             continue
         o, og = outs[0], outs[1]
         n = len(inp["gens"])
